@@ -791,6 +791,12 @@ impl MinOutputAdaCalculator {
     }
 
     pub fn calculate_ada(&self) -> Result<BigNum, JsError> {
+        #[cfg(csl_verif)]
+        if crate::verif_oracle::enter(b'A') {
+            let r = self.calculate_ada();
+            crate::verif_oracle::leave(b'A', r.as_ref().ok().map(|c| u64::from(c)));
+            return r;
+        }
         let mut output: TransactionOutput = self.output.clone();
         for _ in 0..3 {
             let required_coin = Self::calc_required_coin(&output, &self.data_cost)?;
